@@ -93,11 +93,11 @@ def build():
     p.after("for dropped_file in this.to_drop", '''
             invariant
                 it.history@ + it.iter.remaining() =~= drop0, it.index@ == it.history@.len(),
-                *retained_file == kept0,
-                commands@.len() == it.index@,
-                forall|i: int| 0 <= i < commands@.len() ==> affected(#[trigger] commands@[i]) == drop0[i],
-                forall|i: int| 0 <= i < commands@.len() ==> link_target_is(#[trigger] commands@[i], kept0),
-                forall|i: int| 0 <= i < commands@.len() ==> kind_matches(#[trigger] commands@[i], *strategy),
+                *retained_file == kept0, // @ob C02.dedupe_script.inv_the_retained_file_stays_the_first_kept_file
+                commands@.len() == it.index@, // @ob C02.dedupe_script.inv_one_command_per_dropped_file_so_far
+                forall|i: int| 0 <= i < commands@.len() ==> affected(#[trigger] commands@[i]) == drop0[i], // @ob C02.dedupe_script.inv_each_command_affects_its_dropped_file
+                forall|i: int| 0 <= i < commands@.len() ==> link_target_is(#[trigger] commands@[i], kept0), // @ob C02.dedupe_script.inv_every_link_target_is_the_first_kept_file
+                forall|i: int| 0 <= i < commands@.len() ==> kind_matches(#[trigger] commands@[i], *strategy), // @ob C02.dedupe_script.inv_the_kind_of_command_is_the_requested_operation
        ''')
     ub.spec("\n    }\n}\n\n} // verus!\nfn main() {}\n")
     ub.functions = ["dedupe::PartitionedFileGroup::dedupe_script"]
